@@ -126,7 +126,7 @@ static Reg r_c6enc("c6encodings", [](std::vector<std::string> const& a) -> std::
     return out.empty() ? "-" : out;
 });
 
-// c6lazy <path-hex> <P:hexpw | H:hexkey | N> <highest object number>: a fresh QPDF; every object is fetched on its own and, when it is a stream, its raw
+// c6lazy <path-hex> <P:hexpw | H:hexkey | N> <num.gen,num.gen,...>: a fresh QPDF; every object is fetched on its own and, when it is a stream, its raw
 // data is read right after the object was parsed (the order in which a lazily resolved object is consumed by the writer and
 // by --show-object): exercises the per-object key cache of QPDF::getKeyForObject. Output: leaves as in c6leaves.
 static Reg r_c6lazy("c6lazy", [](std::vector<std::string> const& a) -> std::string {
@@ -144,20 +144,27 @@ static Reg r_c6lazy("c6lazy", [](std::vector<std::string> const& a) -> std::stri
         return "err " + c6_clean(e.getMessageDetail());
     }
     std::string leaves;
-    // (getObjectCount() would resolve every object first: the highest object number is an argument)
-    size_t n = static_cast<size_t>(std::stoul(a.at(2)));
-    for (size_t id = 1; id <= n; ++id) {
+    // (getObjectCount() would resolve every object first: the objects to fetch are an argument)
+    std::vector<std::pair<int, int>> ogs;
+    {
+        std::stringstream ss(a.at(2)); std::string item;
+        while (std::getline(ss, item, ',')) {
+            auto dot = item.find('.');
+            ogs.emplace_back(std::stoi(item.substr(0, dot)), std::stoi(item.substr(dot + 1)));
+        }
+    }
+    for (auto const& [id, gn]: ogs) {
         try {
-            auto o = pdf.getObject(static_cast<int>(id), 0);
+            auto o = pdf.getObject(id, gn);
             if (o.isNull()) continue;
-            std::string prefix = std::to_string(id) + ".0";
+            std::string prefix = std::to_string(id) + "." + std::to_string(gn);
             if (o.isStream()) {     // isStream() parses the object; its data is read before anything else is touched
                 auto buf = o.getRawStreamData();
                 leaves += prefix + ":t:-=" + hex(std::string(reinterpret_cast<char const*>(buf->getBuffer()), buf->getSize())) + ";";
             }
             c6_walk(o, "", prefix, leaves, 0);
         } catch (std::exception const& e) {
-            leaves += std::to_string(id) + ".0:t:-=!" + c6_clean(e.what()) + ";";
+            leaves += std::to_string(id) + "." + std::to_string(gn) + ":t:-=!" + c6_clean(e.what()) + ";";
         }
     }
     return "ok leaves=" + (leaves.empty() ? "-" : leaves);
